@@ -1156,7 +1156,8 @@ func TestVerifC20(t *testing.T) {
 	for _, reg := range []struct {
 		name string
 		p    []c20Path
-	}{{"worker", regions.worker}, {"handler", regions.handler}, {"signals", regions.signals}} {
+	}{{"worker", regions.worker}, {"handler", regions.handler}, {"signals", regions.signals},
+		{"drain", regions.drain}, {"retire", regions.retire}, {"startret", regions.startret}, {"retgo", regions.retgo}} {
 		for i := range reg.p {
 			ps.Emit("path "+reg.name+" "+c20PathOp(&reg.p[i]), "known")
 			st.Inc("extracted_paths:" + reg.name)
@@ -1167,6 +1168,10 @@ func TestVerifC20(t *testing.T) {
 	for k, v := range regions.stats {
 		st.Add("extractor:"+k, v)
 	}
+
+	// ---- retirement under virtual time (plain hooks), before the gated hooks are installed
+	nRet := c20RetireStream(t, st, NewVRand(VSeed()).Fork())
+	st.Add("ret_ops_total", nRet)
 
 	// ---- dynamic stream
 	c20InstallHooks()
